@@ -291,3 +291,39 @@ func sameObject(x, y ssa.Value) bool {
 	}
 	return false
 }
+
+// selfOrCond: the store is `x.f = x.f || c` (in SSA: a phi of the constant true, on the edge that comes from
+// testing the old x.f true, and c): it changes the flag only when c holds and then sets it - the same
+// as `if c { x.f = true }`. Returns c, or nil.
+func selfOrCond(st *ssa.Store) ssa.Value {
+	fa, ok := st.Addr.(*ssa.FieldAddr)
+	if !ok {
+		return nil
+	}
+	f := fieldOfAddr(fa)
+	phi, ok := st.Val.(*ssa.Phi)
+	if !ok || len(phi.Edges) != 2 || f == nil {
+		return nil
+	}
+	for i, e := range phi.Edges {
+		b, isC := isConstBool(e)
+		if !isC || !b {
+			continue
+		}
+		pred := phi.Block().Preds[i]
+		iff, isIf := lastIf(pred)
+		if !isIf || pred.Succs[0] != phi.Block() {
+			continue
+		}
+		cd := normCond(iff.Cond)
+		if cd.Neg {
+			continue
+		}
+		old := loadOfField(cd.V, f)
+		if old == nil || !sameExpr(old.X, fa.X) {
+			continue
+		}
+		return phi.Edges[1-i]
+	}
+	return nil
+}
